@@ -44,11 +44,25 @@ type limitsRec struct {
 	Base   int    `json:"base"`
 	Alt    string `json:"alt"`
 	Pre    string `json:"pre"`
+	// what is handed on with the judgement (limits_ret.go): for the judgement `want`, and for `alt`
+	Ret    retRec `json:"ret"`
+	RetAlt retRec `json:"retalt"`
 }
 
 func init() {
 	hx.Register("limits", "replay Limits.tla scenarios (receipt / build / CheckFields)", func(a *hx.Args) error {
-		return hx.ReplayAll(a, func(i int, raw json.RawMessage) hx.Result { return limitsReplay(raw) })
+		return hx.ReplayAll(a, func(i int, raw json.RawMessage) hx.Result {
+			var head struct {
+				Path string `json:"path"`
+			}
+			if err := json.Unmarshal(raw, &head); err != nil {
+				fatalf("bad record: %v", err)
+			}
+			if head.Path == "list" {
+				return batchReplay(raw)
+			}
+			return limitsReplay(raw)
+		})
 	})
 }
 
@@ -281,6 +295,9 @@ func limitsReplay(raw json.RawMessage) hx.Result {
 		if got := classify(berr); got != r.Want {
 			return fail(got, berr, "EventBuilder.Build")
 		}
+		if res := checkHanded(r, nt, r.Ret, built, f, "EventBuilder.Build"); res != nil {
+			return *res
+		}
 	case "receipt":
 		var inputs []input
 		switch r.Hash {
@@ -298,6 +315,12 @@ func limitsReplay(raw json.RawMessage) hx.Result {
 			ev, err := v.NewEventFromUntrustedJSON(in.json)
 			if got := classify(err); got != r.Want {
 				return fail(got, err, "NewEventFromUntrustedJSON of "+in.via)
+			}
+			if res := checkHanded(r, nt, r.Ret, ev, f, "NewEventFromUntrustedJSON of "+in.via); res != nil {
+				return *res
+			}
+			if res := checkKept(r, nt, r.Ret, in.json, f, in.via); res != nil {
+				return *res
 			}
 			if ev != nil && ev.Redacted() && r.Hash == "match" && strings.HasPrefix(in.via, "JSON made by EventBuilder.Build") {
 				// not a fault of the concretiser: the library does not accept its own product as it is
